@@ -1,6 +1,7 @@
 package main
 
 import (
+	"go/types"
 	"fmt"
 	"go/ast"
 	"go/token"
@@ -214,22 +215,34 @@ func checkC04(p *Prog, r *Report) {
 		guard  func(f *Func, facts FactSet) (bool, string)
 	}
 	hasStateEq := func(facts FactSet, c string, val bool) bool { return p.hasFieldEq(facts, "Agent.connectionState", c, val) }
+	ccFn := p.Fn("Agent.connectivityChecks")
+	// roles of the tick's captured locals, by what defines them
+	checkingTimeoutObj := p.localByDef(ccFn, func(rhs ast.Expr) bool {
+		c, ok := unparen(rhs).(*ast.CallExpr)
+		return ok && p.CalleeName(c) == "ice.Agent.initialCheckingTimeout"
+	})
+	checkingSinceObj := p.localByDef(p.Fn("Agent.connectivityChecks$1$1"), func(rhs ast.Expr) bool {
+		c, ok := unparen(rhs).(*ast.CallExpr)
+		return ok && p.CalleeName(c) == "time.Now"
+	})
+	lastStateObj := p.localByDef(p.Fn("Agent.connectivityChecks$1$1"), func(rhs ast.Expr) bool { return p.IsField(rhs, "Agent.connectionState") })
+	r.Anchor("connectivityChecks: checking deadline variable", checkingTimeoutObj != nil)
+	r.Anchor("connectivityChecks: checking start variable", checkingSinceObj != nil)
+	r.Anchor("connectivityChecks: previous-state variable", lastStateObj != nil)
 	table := map[string]site{
 		"Agent.startConnectivityChecks$1": {"ConnectionStateChecking", nil},
 		"Agent.connectivityChecks$1$1": {"ConnectionStateFailed", func(f *Func, facts FactSet) (bool, string) {
 			checking := hasStateEq(facts, "ConnectionStateChecking", true)
 			enabled := facts.Has(func(ft Fact) bool {
-				id, ok := unparen(ft.X).(*ast.Ident)
-				return ft.Op == "==" && !ft.Val && ok && id.Name == "checkingTimeout" && p.constName(ft.Y) == "0"
+				return ft.Op == "==" && !ft.Val && p.isObj(ft.X, checkingTimeoutObj) && p.constName(ft.Y) == "0"
 			})
 			exceeded := facts.Has(func(ft Fact) bool {
 				// checkingTimeout < time.Since(...)
 				if ft.Op != "<" || !ft.Val {
 					return false
 				}
-				id, ok := unparen(ft.X).(*ast.Ident)
 				c, ok2 := unparen(ft.Y).(*ast.CallExpr)
-				return ok && id.Name == "checkingTimeout" && ok2 && p.CalleeName(c) == "time.Since"
+				return p.isObj(ft.X, checkingTimeoutObj) && ok2 && p.CalleeName(c) == "time.Since"
 			})
 			return checking && enabled && exceeded, fmt.Sprintf("while Checking=%v deadline enabled=%v exceeded=%v", checking, enabled, exceeded)
 		}},
@@ -408,10 +421,11 @@ func checkC04(p *Prog, r *Report) {
 		r.Extra["R4.4_rows"] = rows
 	}
 	if f := p.Fn("Agent.validateSelectedPair"); r.Anchor("Agent.validateSelectedPair", f != nil) {
+		totalObj := p.localByDef(f, func(rhs ast.Expr) bool { return p.IsField(rhs, "Agent.failedTimeout") })
 		t := p.NewTable(f)
 		t.Event = func(n ast.Node, _ *TEnv) []string {
 			if as, ok := n.(*ast.AssignStmt); ok && len(as.Lhs) == 1 {
-				if id, ok := as.Lhs[0].(*ast.Ident); ok && id.Name == "totalTimeToFailure" {
+				if p.isObj(as.Lhs[0], totalObj) {
 					switch {
 					case as.Tok == token.DEFINE && p.IsField(as.Rhs[0], "Agent.failedTimeout"):
 						return []string{"total:=failed"}
@@ -432,7 +446,7 @@ func checkC04(p *Prog, r *Report) {
 							}
 						}
 					}
-					if id, ok := unparen(c.Args[1]).(*ast.Ident); ok && id.Name == "totalTimeToFailure" {
+					if p.isObj(c.Args[1], totalObj) {
 						a1 = "total"
 					}
 					return []string{"timing(" + a0 + "," + a1 + ")"}
@@ -474,7 +488,7 @@ func checkC04(p *Prog, r *Report) {
 		walkBody(f, func(x ast.Node) bool {
 			if is, ok := x.(*ast.IfStmt); ok {
 				if b, ok := unparen(is.Cond).(*ast.BinaryExpr); ok && b.Op == token.NEQ {
-					if id, ok := unparen(b.X).(*ast.Ident); ok && id.Name == "totalTimeToFailure" {
+					if p.isObj(b.X, totalObj) {
 						r.OK("validateSelectedPair: zero test on the failed timeout", p.Pos(is.Pos()), "guard tests totalTimeToFailure (= failedTimeout)")
 					} else {
 						r.Fail("validateSelectedPair: zero test on the failed timeout", p.Pos(is.Pos()), "the guard for adding the disconnected timeout tests "+stripVarLines(p.Canon(b.X))+" instead of the failed timeout: a zero failed timeout no longer disables Failed")
@@ -485,10 +499,15 @@ func checkC04(p *Prog, r *Report) {
 		})
 	}
 	if f := p.Fn("Agent.initialCheckingTimeout"); r.Anchor("Agent.initialCheckingTimeout", f != nil) {
+		dObj := p.localByDef(f, func(rhs ast.Expr) bool { return p.IsField(rhs, "Agent.disconnectedTimeout") })
+		wantSum := ""
+		if dObj != nil {
+			wantSum = "($" + dObj.Name() + " + $a.failedTimeout)"
+		}
 		t := p.NewTable(f)
 		t.Event = func(n ast.Node, _ *TEnv) []string {
 			if as, ok := n.(*ast.AssignStmt); ok && len(as.Lhs) == 1 {
-				if id, ok := as.Lhs[0].(*ast.Ident); ok && id.Name == "disconnectedTimeout" {
+				if p.isObj(as.Lhs[0], dObj) {
 					switch {
 					case p.IsField(as.Rhs[0], "Agent.disconnectedTimeout"):
 						return []string{"d=configured"}
@@ -533,9 +552,9 @@ func checkC04(p *Prog, r *Report) {
 				r.Check(res == "0", "initialCheckingTimeout: failed timeout disabled", sp.EndPos, "0 (never fails)", "with a zero failed timeout the checking deadline is "+res)
 			case sp.Vals["lite"] == "true" && sp.Vals["explicit"] == "false":
 				sawLiteDefault = true
-				r.Check(ev == "d=configured,d=default" && res == "($disconnectedTimeout + $a.failedTimeout)", "initialCheckingTimeout: lite default", sp.EndPos, "default disconnected + failed", "lite agent without explicit timeout: "+ev+" -> "+res)
+				r.Check(ev == "d=configured,d=default" && res == wantSum, "initialCheckingTimeout: lite default", sp.EndPos, "default disconnected + failed", "lite agent without explicit timeout: "+ev+" -> "+res)
 			default:
-				r.Check(ev == "d=configured" && res == "($disconnectedTimeout + $a.failedTimeout)", "initialCheckingTimeout: disconnected + failed "+rowKey(sp, "lite", "explicit"), sp.EndPos, "configured disconnected + failed", "deadline is "+ev+" -> "+res)
+				r.Check(ev == "d=configured" && res == wantSum, "initialCheckingTimeout: disconnected + failed "+rowKey(sp, "lite", "explicit"), sp.EndPos, "configured disconnected + failed", "deadline is "+ev+" -> "+res)
 			}
 		}
 	}
@@ -548,7 +567,7 @@ func checkC04(p *Prog, r *Report) {
 		t.Event = func(n ast.Node, _ *TEnv) []string {
 			var out []string
 			if as, ok := n.(*ast.AssignStmt); ok && len(as.Lhs) == 1 {
-				if id, ok := as.Lhs[0].(*ast.Ident); ok && id.Name == "checkingDuration" {
+				if p.isObj(as.Lhs[0], checkingSinceObj) {
 					out = append(out, "arm")
 				}
 			}
@@ -569,7 +588,7 @@ func checkC04(p *Prog, r *Report) {
 				if p.IsField(a.X, "Agent.connectionState") {
 					return "state", false
 				}
-				if id, ok := unparen(a.X).(*ast.Ident); ok && id.Name == "checkingTimeout" {
+				if p.isObj(a.X, checkingTimeoutObj) {
 					return "enabled", false
 				}
 			case "ord":
@@ -577,10 +596,10 @@ func checkC04(p *Prog, r *Report) {
 					return "entered", false
 				}
 				// checkingTimeout ? time.Since(...)
-				if id, ok := unparen(a.X).(*ast.Ident); ok && id.Name == "checkingTimeout" {
+				if p.isObj(a.X, checkingTimeoutObj) {
 					return "deadline", false
 				}
-				if id, ok := unparen(a.Y).(*ast.Ident); ok && id.Name == "checkingTimeout" {
+				if p.isObj(a.Y, checkingTimeoutObj) {
 					return "deadline", true
 				}
 			}
@@ -616,7 +635,7 @@ func checkC04(p *Prog, r *Report) {
 				if lit, ok := unparen(d.Call.Fun).(*ast.FuncLit); ok {
 					ast.Inspect(lit.Body, func(x ast.Node) bool {
 						if as, ok := x.(*ast.AssignStmt); ok && len(as.Lhs) == 1 {
-							if id, ok := as.Lhs[0].(*ast.Ident); ok && id.Name == "lastConnectionState" && p.IsField(as.Rhs[0], "Agent.connectionState") {
+							if p.isObj(as.Lhs[0], lastStateObj) && p.IsField(as.Rhs[0], "Agent.connectionState") {
 								deferred = true
 							}
 						}
@@ -634,8 +653,7 @@ func checkC04(p *Prog, r *Report) {
 				if !ok || len(as.Lhs) != 1 {
 					return false
 				}
-				id, ok := as.Lhs[0].(*ast.Ident)
-				return ok && id.Name == "lastConnectionState"
+				return p.isObj(as.Lhs[0], lastStateObj)
 			}
 			_, escapes := g.PathAvoiding(Loc{g.Entry, 0}, isAssign, func(b *Block) bool { return b == g.Exit }, nil)
 			r.Check(!escapes, "check tick: previous state recorded on every exit", p.Pos(tick.Body.Pos()), "every path assigns lastConnectionState", "some exit of the tick (the Failed / deadline early returns) does not record the state seen: after Restart the Checking deadline is not re-armed and the agent fails at once")
@@ -652,4 +670,43 @@ func hasPrefixKey(m map[string]string, name string) bool {
 		}
 	}
 	return false
+}
+
+// localByDef: the local variable of f (nested literals included) that has an
+// assignment whose right-hand side satisfies pred. Roles of locals are resolved
+// through what defines them, never through their names.
+func (p *Prog) localByDef(f *Func, pred func(rhs ast.Expr) bool) types.Object {
+	var found types.Object
+	if f == nil || f.Body == nil {
+		return nil
+	}
+	ast.Inspect(f.Body, func(n ast.Node) bool {
+		switch x := n.(type) {
+		case *ast.AssignStmt:
+			if len(x.Lhs) == len(x.Rhs) {
+				for i, l := range x.Lhs {
+					if id, ok := unparen(l).(*ast.Ident); ok && found == nil && pred(x.Rhs[i]) {
+						if v, ok := p.ObjOf(id).(*types.Var); ok && !v.IsField() {
+							found = v
+						}
+					}
+				}
+			}
+		case *ast.ValueSpec:
+			if len(x.Names) == len(x.Values) {
+				for i, nm := range x.Names {
+					if found == nil && pred(x.Values[i]) {
+						found = p.ObjOf(nm)
+					}
+				}
+			}
+		}
+		return true
+	})
+	return found
+}
+
+func (p *Prog) isObj(e ast.Expr, o types.Object) bool {
+	id, ok := unparen(e).(*ast.Ident)
+	return ok && o != nil && p.ObjOf(id) == o
 }
